@@ -783,7 +783,7 @@ def grid_diff_pairs(env, tier):
         fb = ("y" + (SUFFIX[fb_[0]] or ".txt"),) + fb_ + ("ok",)
         yield mkcase("pairs-large", "xzcmp", [fa[0], fb[0]], [fa, fb])
         yield mkcase("pairs-large", "xzcmp", ["-s", fa[0], fb[0]], [fa, fb])
-        yield mkcase("pairs-large", "xzdiff", ["-q", fa[0], fb[0]], [fa, fb])
+        yield mkcase("pairs-large", "xzdiff", [fa[0], fb[0]], [fa, fb])
     # standard input as one operand ("-"), data compressed or not
     for a in ops:
         if a[2] == "missing":
